@@ -1,6 +1,7 @@
 package modes
 
 import (
+	"strings"
 	"context"
 	"encoding/json"
 	"fmt"
@@ -30,6 +31,9 @@ type c14Obs struct {
 // runServeCase plays the script against a real Server (NewServer with scripted callbacks) whose only
 // listener hands out the real TCP transport over an in-memory connection.
 func runServeCase(c *hsCase, census bool) (obs c14Obs) {
+	if c.Route == "inproc" {
+		return runServeInproc(c, census)
+	}
 	var tcfgS *lime.TCPConfig
 	var peerTLS = false
 	var cl interface{}
@@ -37,7 +41,7 @@ func runServeCase(c *hsCase, census bool) (obs c14Obs) {
 	ml := pair.NewMemListener(nil)
 	var peerCfg = (*struct{})(nil)
 	_ = peerCfg
-	if c.Route == "pipe-tls" {
+	if strings.HasPrefix(c.Route, "pipe-tls") {
 		s, _ := pair.TLSConfigs()
 		tcfgS = &lime.TCPConfig{TLSConfig: s}
 		ml = pair.NewMemListener(tcfgS)
@@ -109,6 +113,7 @@ func runServeCase(c *hsCase, census bool) (obs c14Obs) {
 	if peerTLS {
 		_, clc := pair.TLSConfigs()
 		peer = newRawPeer(pc, clc)
+		peer.bad = c.Route == "pipe-tls-bad"
 	} else {
 		peer = newRawPeer(pc, nil)
 	}
@@ -305,7 +310,7 @@ func init() {
 						}
 						routes := []string{"pipe"}
 						if inList(cfg.enc, "tls") && (e.Thorough() || pi == 0) {
-							routes = append(routes, "pipe-tls")
+							routes = append(routes, "pipe-tls", "pipe-tls-bad")
 						}
 						for _, route := range routes {
 							var sample func() bool
@@ -321,6 +326,23 @@ func init() {
 								return err
 							}
 							cases = append(cases, cs...)
+						}
+						// the in-process transport: same scripts as far as typed envelopes can express
+						// them, plus the client vanishing right after each of its envelopes was taken
+						if pi == 0 || e.Thorough() {
+							rate := 25
+							sample := func() bool { return e.Rng.Intn(rate) == 0 }
+							cs, err := enumerateHs(e, cfg, "inproc", pat, regOk, depth, false, false, sample)
+							if err != nil {
+								return err
+							}
+							for _, c := range cs {
+								if !inprocPlayable(c) {
+									continue
+								}
+								cases = append(cases, c)
+								cases = append(cases, goneVariants(c)...)
+							}
 						}
 					}
 				}
